@@ -233,6 +233,98 @@ Fixpoint curs (l : list obs) : list key :=
   | _ :: r => curs r
   end.
 
+(* ---- the listeners' use of the provider (core/server/ntske.go, server_ip.go,
+   server_scion.go).  A key exchange seals its cookies under provider.Current(); an
+   NTS request whose cookie names key id kid is dropped unless provider.Get(kid)
+   succeeds, and the cookies of the response are sealed under provider.Current().
+   (Cryptography is not modelled here: the requests of these histories are honest.)
+   What is visible from outside: was the request answered, and the key id (in clear
+   in the cookie header) of every cookie handed out. ---- *)
+Inductive lstep :=
+| LKe (t : Z)                    (* key exchange at clock reading t *)
+| LReq (t : Z) (kid : Z).        (* NTS request with a cookie under key id kid *)
+
+(* t, Some kid for a request / None for a key exchange, answered, key ids of the cookies handed out *)
+Inductive lobs := LObs (t : Z) (req : option Z) (answered : bool) (ids : list Z).
+
+Definition lstep_time (st : lstep) : Z := match st with LKe t => t | LReq t _ => t end.
+
+Definition lsn_step (s : state) (st : lstep) : option (state * lobs) :=
+  match st with
+  | LKe t =>
+      match current s t t with
+      | None => None
+      | Some (k, s') => Some (s', LObs t None true [k_id k])
+      end
+  | LReq t kid =>
+      match get s kid t with
+      | None => Some (s, LObs t (Some kid) false [])
+      | Some _ =>
+          match current s t t with
+          | None => None
+          | Some (k, s') => Some (s', LObs t (Some kid) true [k_id k])
+          end
+      end
+  end.
+
+Fixpoint lsn_run (s : state) (l : list lstep) : option (state * list lobs) :=
+  match l with
+  | [] => Some (s, [])
+  | st :: r =>
+      match lsn_step s st with
+      | None => None
+      | Some (s', b) =>
+          match lsn_run s' r with
+          | None => None
+          | Some (s'', bs) => Some (s'', b :: bs)
+          end
+      end
+  end.
+
+Definition lsn_history (t0 : Z) (l : list lstep) : option (state * list lobs) :=
+  match new_provider t0 with None => None | Some s => lsn_run s l end.
+
+Fixpoint lmono (t : Z) (l : list lstep) : Prop :=
+  match l with [] => True | st :: r => t <= lstep_time st /\ lmono (lstep_time st) r end.
+Fixpoint lmonob (t : Z) (l : list lstep) : bool :=
+  match l with [] => true | st :: r => (t <=? lstep_time st) && lmonob (lstep_time st) r end.
+
+(* The property oracle at the listeners, from the text of C12 and from nothing but what
+   an outside observer has: a table key id -> generation time, a key being generated
+   when its id is first seen on a cookie (the provider rotates lazily, inside the call
+   that hands the new key out; key 1 is made by NewProvider at t0).  A key lives 3 days
+   from its generation.  The observations become Current/Get observations of those
+   keys and are judged by C12_ok: every cookie handed out at t is sealed under a key
+   generated at most 24 h before t; an answered request presented a key generated at
+   most 72 h before; a key handed out at t is honoured until t + 48 h; ids never repeat. *)
+Fixpoint tab_find (id : Z) (tab : list (Z * Z)) : option Z :=
+  match tab with [] => None | (i, g) :: r => if i =? id then Some g else tab_find id r end.
+Definition tab_key (id g : Z) : key := {| k_id := id; k_val := 0; k_nb := g; k_na := g + key_validity |}.
+Definition tab_add (t : Z) (tab : list (Z * Z)) (id : Z) : list (Z * Z) :=
+  match tab_find id tab with Some _ => tab | None => (id, t) :: tab end.
+
+Fixpoint lsn_translate (tab : list (Z * Z)) (l : list lobs) : list obs :=
+  match l with
+  | [] => []
+  | LObs t req ans ids :: r =>
+      let tab' := fold_left (tab_add t) ids tab in
+      (match req with
+       | None => []
+       | Some kid =>
+           [BGet 0 t kid
+              (if ans then
+                 Some (match tab_find kid tab with
+                       | Some g => tab_key kid g
+                       | None => tab_key kid (t - key_validity - 1) (* a key nobody was ever given *)
+                       end)
+               else None)]
+       end)
+      ++ map (fun id => BCur 0 t (tab_key id (match tab_find id tab' with Some g => g | None => t end))) ids
+      ++ lsn_translate tab' r
+  end.
+
+Definition C12_lsn_ok (t0 : Z) (l : list lobs) : bool := C12_ok (lsn_translate [(1, t0)] l).
+
 (* ---- concurrent histories: calls of several goroutines at the same virtual
    instant are ordered by the lock only.  A group is the list of calls made at
    one instant t, each goroutine any number of them (in its program order);
